@@ -1,7 +1,7 @@
 P = {
-    "gens": ["C16clamgr"],
+    "gens": ["C16clamgr", "C16clamgrconc"],
     "theorems": ["C16_active_iff_started", "C16_retry_permanent", "C16_retry_permanent_recovers", "C16_retry",
-                 "C16_single_instance", "C16_close_once", "C16_no_panic"],
+                 "C16_single_instance", "C16_close_once", "C16_close_concurrent", "C16_no_panic"],
     "rule": "real cla.Manager under scripted mock adapters (Start outcome ok / fail-retry / fail-no-retry, logged "
             "Start/Close, Channel() to inject PeerDisappeared), observed after every step: Sender()/Receiver() ids, "
             "the step's Start/Close calls, registry snapshot (address, instance, ttl), panic/timeout. "
@@ -10,10 +10,28 @@ P = {
             "permanent/non-permanent x budget 0..3, a tick = one synchronous retry pass; "
             "(b) random sequences (length 4..15) over 2..4 adapters sharing addresses and endpoint ids, budget 0..3; "
             "(c) one adapter on the REAL 1 ms retry ticker with a scripted outcome list, observed only in tick-stable states "
-            "(registry empty or all active): register, peer loss, close. distinct = distinct case bodies",
+            "(registry empty or all active): register, peer loss, close. "
+            "(d) C16clamgrconc: Manager.Close() while events are still in flight in the manager's handler goroutine: 1..4 "
+            "PeerDisappeared (and forwarded-only PeerAppeared) messages of started adapters injected by one goroutine per adapter, "
+            "Close() called when the first messages have been taken / immediately / after some yields / from inside the restart "
+            "(schedule point in the mock adapter's Close, which starts Manager.Close() in another goroutine) / on the real 1 ms "
+            "ticker from inside a Start call of a retry pass; in a third of the cases a bystander goroutine calls Register for a "
+            "further adapter (variant midregister: Manager.Close() is started from inside that adapter's Start - after Register has "
+            "looked at the stop flag - and has returned before Start does), in some cases another goroutine calls Unregister for a "
+            "started adapter at the moment the shutdown stops it (schedule point in the mock's Close); verdict from the call log: "
+            "Close() returns (15 s guard), no panic in Close() / the overlapping Unregister, no Start of a started and no Close of a "
+            "stopped adapter at any point, one instance per address, once Close() and the overlapping Register have returned nothing "
+            "is started or listed and no further call is made; the set of queued messages the handler still processed is validated "
+            "against Model.cm_conc_close (some split restart-before-flag / unregister-after-flag / dropped explains the calls). "
+            "distinct = distinct case bodies",
     "assumptions": [
-        "events are atomic: Register/Unregister/Restart calls from other goroutines do not overlap a retry pass or each other "
-        "(the races between Manager API calls and the handler goroutine are not modelled)",
+        "events are atomic in the model: Register/Unregister/Restart calls from other goroutines do not overlap a retry pass or "
+        "each other.  Manager.Close() overlapping the handler's own work (queued PeerDisappeared restarts, retry passes) IS "
+        "covered (C16_close_concurrent, C16clamgrconc).  Of the API calls of other goroutines only Register and Unregister "
+        "overlapping Close() are exercised (C16clamgrconc; two defects found there are repaired: fix commits 047ccad, 85c7cec), "
+        "judged by the call log, not modelled; Register / Unregister / Restart overlapping a retry pass or a peer-loss restart "
+        "of the same element (e.g. activate() checks isActive outside the element mutex as well) are outside the property's "
+        "quantifier (histories = sequences) and not exercised",
         "budget (queueTtl) >= 0, as in NewManager (10; tied by ConstsOkClaMgr.cm_default_ttl_nonneg)",
         "Manager.Close is called at most once per manager (a second Close panics: close of closed channel; io.Closer leaves it "
         "undefined); modelled and cross-checked, not judged by the property checker",
@@ -25,14 +43,15 @@ P = {
         "ticker branch of Manager.handler (shape of the original pinned by ConstsOkClaMgr.cm_manager_handler_ok, behaviour "
         "cross-checked on the real ticker by the 'ticker' cases); VerifDump reads ttl / stop channel presence",
         "ConvergenceProvider registration, listenerIDs / EndpointIDs bookkeeping and logging are not modelled",
-        "no-deadlock is checked by the harness (10 s guard per step), not proved: the model has no blocking operations "
+        "no-deadlock is checked by the harness (10 s guard per step, 15 s for Close() with events in flight), not proved: the model has no blocking operations "
         "(deactivate's wait for stopAck is answered by the element handler, which runs exactly while the stop channel is open)",
     ],
     "level_text": "Invariant proof over all event sequences and all start-outcome oracles of the Gallina model of "
                   "Manager/convergenceElem (ttl counter, activate/deactivate, registry, retry pass, Restart, Close, explicit panic "
                   "state), for any number of adapters (shared addresses allowed), permanent or not, any budget >= 0; the model is "
                   "replayed against the real Manager step by step (trace inclusion on calls, Sender()/Receiver(), registry).",
-    "level_note": "Proof is about the model of the repaired code (fix: failing start no longer counts ttl below 0). The tie to Go "
+    "level_note": "Proof is about the model of the repaired code (fix: failing start no longer counts ttl below 0; the two "
+                  "concurrency fixes 047ccad / 85c7cec do not change sequential behaviour). The tie to Go "
                   "is the differential check, bounded by generator quality; goroutine interleavings inside the Manager are not "
                   "modelled; no-deadlock only tested.",
     "timeout_quick": 600,
